@@ -62,6 +62,10 @@ def zernike(mask, index, normalize=True, rho=None, theta=None):
     else:
         if theta is None:
             raise ValueError("Both rho and theta must be specified")
+        # array_like coordinates: the arithmetic below needs floating point
+        # arrays (a list times an integer is tiled, unsigned integers wrap)
+        rho = np.asarray(rho, dtype=float)
+        theta = np.asarray(theta, dtype=float)
 
     m, n = zernike_index(index)
 
